@@ -3,8 +3,8 @@ package main
 import (
 	"encoding/json"
 
-	"github.com/xinchentechnote/fin-proto-go/simrt"
 	"fmt"
+	"github.com/xinchentechnote/fin-proto-go/simrt"
 	"os"
 	"sort"
 	"strings"
@@ -130,16 +130,17 @@ func hexClip(b []byte, n int) string {
 // ---------------------------------------------------------------- scenario registry
 
 type scenario struct {
-	Prop     string
-	Run      func(c *RunCtx)
-	Race     bool   // needs the -race build
-	MemLimit bool   // worker runs under the simulated machine's address-space limit
-	AbortIsViolation bool // an out-of-memory abort of the process is this property's violation (otherwise: counted, skipped)
-	Level    string // evidence level
-	Rule     string
-	Quick    uint64 // runs per tier
-	Thorough uint64
-	Assumptions []string
+	Prop             string
+	Run              func(c *RunCtx)
+	Race             bool   // needs the -race build
+	MemLimit         bool   // worker runs under the simulated machine's address-space limit
+	AbortIsViolation bool   // an out-of-memory abort of the process is this property's violation (otherwise: counted, skipped)
+	RunsPerProcess   uint64 // restart the worker process after this many runs (0 = never): cold-start coverage
+	Level            string // evidence level
+	Rule             string
+	Quick            uint64 // runs per tier
+	Thorough         uint64
+	Assumptions      []string
 }
 
 var scenarios = map[string]*scenario{}
@@ -184,6 +185,7 @@ func executeRun(sc *scenario, tier string, tape *Tape, stats *Stats, tracing boo
 				}
 			}
 		}()
+		simrt.SetMapSeed(0)
 		sc.Run(c)
 	}()
 	res.Index = index
